@@ -140,7 +140,8 @@ def rand_stim(rnd, check):
             actions = actions[:k + 1]
             break
     return {'check': check, 'api': api, 'blocks': blocks, 'actions': actions,
-            'pre_abort': rnd.random() < 0.04, 'linger': rnd.choice([4, 20, 40])}
+            'pre_abort': rnd.random() < 0.04, 'linger': rnd.choice([4, 20, 40]),
+            'slowcancel': api == 'run' and rnd.random() < 0.4}
 
 
 def stimuli(tier, seed, ctx):
